@@ -591,4 +591,52 @@ theorem StepOk.of_distinct {st : Step} (h : StepDistinct st) : StepOk st := by
   | frame t1 t2 =>
     exact ⟨hitsNodup_of_ids t1 h.1, hitsNodup_sortTree t1 h.1, hitsNodup_sortTree t2 h.2⟩
 
+/-! ### render's child sort -/
+
+theorem mem_insertKid (x a : Kid) : (l : List Kid) → (a ∈ insertKid x l ↔ a = x ∨ a ∈ l)
+  | [] => by simp [insertKid]
+  | y :: ys => by
+    simp only [insertKid]
+    split
+    · simp
+    · simp only [List.mem_cons, mem_insertKid x a ys]
+      constructor
+      · rintro (h | h | h)
+        · exact Or.inr (Or.inl h)
+        · exact Or.inl h
+        · exact Or.inr (Or.inr h)
+      · rintro (h | h | h)
+        · exact Or.inr (Or.inl h)
+        · exact Or.inl h
+        · exact Or.inr (Or.inr h)
+
+theorem insertKid_sorted (x : Kid) : (l : List Kid) → l.Pairwise (fun a b => a.2.2.1 ≤ b.2.2.1) →
+    (insertKid x l).Pairwise (fun a b => a.2.2.1 ≤ b.2.2.1)
+  | [], _ => by simp [insertKid]
+  | y :: ys, h => by
+    have hy := List.pairwise_cons.mp h
+    simp only [insertKid]
+    split
+    · rename_i hlt
+      refine List.pairwise_cons.mpr ⟨?_, h⟩
+      intro a ha
+      rcases List.mem_cons.mp ha with rfl | ha'
+      · exact Int.le_of_lt hlt
+      · exact Int.le_trans (Int.le_of_lt hlt) (hy.1 a ha')
+    · rename_i hge
+      refine List.pairwise_cons.mpr ⟨?_, insertKid_sorted x ys hy.2⟩
+      intro a ha
+      rcases (mem_insertKid x a ys).mp ha with rfl | ha'
+      · exact Int.not_lt.mp hge
+      · exact hy.1 a ha'
+
+theorem sortKids_sorted (l : List Kid) : (sortKids l).Pairwise (fun a b => a.2.2.1 ≤ b.2.2.1) := by
+  suffices H : ∀ (l acc : List Kid), acc.Pairwise (fun a b => a.2.2.1 ≤ b.2.2.1) →
+      (l.foldl (fun acc x => insertKid x acc) acc).Pairwise (fun a b => a.2.2.1 ≤ b.2.2.1) from
+    H l [] List.Pairwise.nil
+  intro l
+  induction l with
+  | nil => intro acc h; exact h
+  | cons x r ih => intro acc h; exact ih _ (insertKid_sorted x acc h)
+
 end VaxisModel.Lemmas.Vxfw
